@@ -31,6 +31,17 @@ func WorkerMain(mode string) {
 		fmt.Fprintf(os.Stderr, "unknown worker mode %q\n", mode)
 		os.Exit(2)
 	}
+	// a worker never outlives the process that started it (a killed parent
+	// would otherwise leave a worker that hangs in an item behind for good)
+	parent := os.Getppid()
+	go func() {
+		for {
+			time.Sleep(2 * time.Second)
+			if os.Getppid() != parent {
+				os.Exit(3)
+			}
+		}
+	}()
 	in := bufio.NewReaderSize(os.Stdin, 1<<20)
 	out := bufio.NewWriter(os.Stdout)
 	for {
